@@ -1,1 +1,96 @@
-fn main() { println!("ok {}", ciphercore_base::verif_hooks::drain_stages().len()); }
+mod compile;
+mod export;
+mod prog;
+
+use serde_json::{json, Value as Json};
+use std::io::{BufRead, Write};
+
+fn read_jobs(path: &str) -> Vec<Json> {
+    let f = std::fs::File::open(path).expect("open jobs");
+    std::io::BufReader::new(f)
+        .lines()
+        .map(|l| l.unwrap())
+        .filter(|l| !l.trim().is_empty())
+        .map(|l| serde_json::from_str(&l).expect("job json"))
+        .collect()
+}
+
+/// compile-dump <jobs.ndjson> <out.ndjson>: each job {id, prog, owners, outs, mode}; writes node records of every stage.
+fn cmd_compile_dump(args: &[String]) {
+    let jobs = read_jobs(&args[0]);
+    let mut out = std::io::BufWriter::new(std::fs::File::create(&args[1]).unwrap());
+    for job in jobs {
+        let c = prog::build_context(&job["prog"]).expect("build");
+        let owners: Vec<_> = job["owners"].as_array().unwrap().iter().map(compile::io_status).collect();
+        let outs: Vec<_> = job["outs"].as_array().unwrap().iter().map(compile::io_status).collect();
+        let r = compile::compile(&c, &owners, &outs, job["mode"].as_str().unwrap()).expect("compile");
+        for (name, ctx) in r.stages.iter() {
+            let g = ctx.get_main_graph().unwrap();
+            for mut rec in export::export_graph_nodes(&g, export::Num::Mod(16)).unwrap() {
+                rec["prog"] = job["id"].clone();
+                rec["stage"] = json!(name);
+                writeln!(out, "{}", rec).unwrap();
+            }
+        }
+    }
+}
+
+fn owner_str(j: &Json) -> String {
+    if let Some(p) = j.as_u64() {
+        p.to_string()
+    } else {
+        j.as_str().unwrap().to_owned()
+    }
+}
+
+/// compile-progs <jobs.ndjson> <out.ndjson> [src-stage]: one program record per job for the TLA+ interpreter:
+/// {id, src:[nodes], mpc:[nodes], owners:["0"|"1"|"2"|"pub"|"sh"], outs:[party..], stages:{name: prf bag}}
+fn cmd_compile_progs(args: &[String]) {
+    let jobs = read_jobs(&args[0]);
+    let src_stage = args.get(2).map(|s| s.as_str()).unwrap_or("prep.inlined");
+    let mut out = std::io::BufWriter::new(std::fs::File::create(&args[1]).unwrap());
+    for job in jobs {
+        let res = std::panic::catch_unwind(|| -> ciphercore_base::errors::Result<Json> {
+            let c = prog::build_context(&job["prog"])?;
+            let owners: Vec<_> = job["owners"].as_array().unwrap().iter().map(compile::io_status).collect();
+            let outs: Vec<_> = job["outs"].as_array().unwrap().iter().map(compile::io_status).collect();
+            let r = compile::compile(&c, &owners, &outs, job["mode"].as_str().unwrap())?;
+            let src = compile::stage(&r.stages, src_stage)?.get_main_graph()?;
+            let mpc = compile::stage(&r.stages, "final.optimized")?.get_main_graph()?;
+            let mut stages = serde_json::Map::new();
+            for (name, ctx) in r.stages.iter() {
+                stages.insert(name.clone(), compile::prf_bag(&ctx.get_main_graph()?));
+            }
+            Ok(json!({
+                "id": job["id"],
+                "src": export::export_graph_nodes(&src, export::Num::Mod(16))?,
+                "mpc": export::export_graph_nodes(&mpc, export::Num::Mod(16))?,
+                "owners": job["owners"].as_array().unwrap().iter().map(owner_str).collect::<Vec<_>>(),
+                "outs": job["outs"],
+                "mode": job["mode"],
+                "stages": stages,
+            }))
+        });
+        match res {
+            Ok(Ok(rec)) => writeln!(out, "{}", rec).unwrap(),
+            Ok(Err(e)) => eprintln!("job {}: compile error: {}", job["id"], e),
+            Err(_) => eprintln!("job {}: PANIC", job["id"]),
+        }
+    }
+}
+
+fn main() {
+    let args: Vec<String> = std::env::args().skip(1).collect();
+    if args.is_empty() {
+        eprintln!("usage: cc-conform <command> ...");
+        std::process::exit(2);
+    }
+    match args[0].as_str() {
+        "compile-dump" => cmd_compile_dump(&args[1..]),
+        "compile-progs" => cmd_compile_progs(&args[1..]),
+        c => {
+            eprintln!("unknown command {c}");
+            std::process::exit(2);
+        }
+    }
+}
